@@ -119,7 +119,14 @@ def evalCmp (op : CmpOp) (x y : Value) : Option Value :=
     | .float a, .float b => some (.bool (ordResult op (partialCmp a b)))
     | .int a, .float b => some (.bool (ordResult op (cmpIntFloat a b)))
     | .float a, .int b => some (.bool (ordResult op ((cmpIntFloat b a).map Ordering.swap)))
+    | .str a, .str b => some (.bool (ordResult op (some (compare a b))))   -- since the `fix:` commit
     | _, _ => none
+
+/-- the comparison arms before the `fix:` commit "string ordering in .where": no `Str`/`Str` arm -/
+def evalCmpOld (op : CmpOp) (x y : Value) : Option Value :=
+  match x, y with
+  | .str _, .str _ => (match op with | .eq => evalCmp op x y | .ne => evalCmp op x y | _ => none)
+  | _, _ => evalCmp op x y
 
 def asBool : Value → Option Bool
   | .bool b => some b
@@ -225,14 +232,11 @@ def stepAccepts (e : FExpr) (ev : Event) : Bool := evalP (toPred e) ev
 
 /-! ### where the two contexts can differ: the guard of the partial theorem -/
 
-/-- the three ways the unchanged code makes the two contexts disagree -/
+/-- the two ways the code still makes the two contexts disagree -/
 inductive Finding where
   /-- `==`/`!=` of a field with a numeric literal: `Value` equality (exact, `Int ≠ Float`) in
   `.where`, `|a − b| < ε` with int/float mixing in a step -/
   | eqEpsilon
-  /-- `<`,`<=`,`>`,`>=` of a string field with a string literal: no result (event dropped) in
-  `.where`, lexicographic comparison in a step -/
-  | stringOrder
   /-- an operand of `not` / `or` that has no boolean value in the VPL evaluator (missing field,
   incomparable types, non-boolean operand): `.where` drops the event, the step treats it as `false` -/
   | errorOperand
@@ -257,15 +261,14 @@ def whyCmpStrong (op : CmpOp) (x v : Value) : Option Finding :=
   match op with
   | .eq => if eqSafe x v then none else some .eqEpsilon
   | .ne => if eqSafe x v then none else some .eqEpsilon
-  | _ => if numeric x && numeric v then none
-         else if isStr x && isStr v then some .stringOrder else some .errorOperand
+  | _ => if (numeric x && numeric v) || (isStr x && isStr v) then none else some .errorOperand
 
 /-- reason (if any) why `field op literal` may be *accepted* by one context only -/
 def whyCmpWeak (op : CmpOp) (x v : Value) : Option Finding :=
   match op with
   | .eq => if eqSafe x v then none else some .eqEpsilon
   | .ne => if eqSafe x v then none else some .eqEpsilon
-  | _ => if isStr x && isStr v then some .stringOrder else none
+  | _ => none
 
 def isBoolResult : Option Value → Bool
   | some (.bool _) => true
